@@ -82,6 +82,7 @@ def _ops_tensor(depth):
         "truediv": lambda T: T / 2, "floordiv": lambda T: T // 2,
         "swizzle-rev": lambda T: T.swizzleRanks(list(reversed(T.getRankIds()))),
         "swizzle-same": lambda T: T.swizzleRanks(list(T.getRankIds())),
+        "swizzle-top2": lambda T: T.swizzleRanks([T.getRankIds()[1], T.getRankIds()[0]] + T.getRankIds()[2:]),
         "swap": lambda T: T.swapRanks(),
         "flatten": lambda T: T.flattenRanks(),
         "flatten-linear": lambda T: T.flattenRanks(coord_style="linear"),
